@@ -191,6 +191,7 @@ func InitSharedMultiColumnReaders(segKey string, colNames map[string]bool,
 
 	err := fileutils.GLOBAL_FD_LIMITER.TryAcquireWithBackoff(maxOpenFds, 10, fmt.Sprintf("InitSharedMultiColumnReaders.qid=%d", qid))
 	if err != nil {
+		sharedReader.numOpenFDs = 0 // nothing was acquired, so Close must not release anything
 		return sharedReader, fmt.Errorf("qid=%d, InitSharedMultiColumnReaders: Failed to acquire resources to be able to open %+v FDs. Error: %+v", qid, maxOpenFds, err)
 	}
 	csgFileToColNameMap := make(map[string]string)
@@ -284,6 +285,9 @@ func (scr *SharedMultiColReaders) Close() {
 		log.Errorf("SharedMultiColReaders.Close: Failed to release needed segment files from local storage %+v! err: %+v", scr.allInUseFiles, err)
 	}
 	fileutils.GLOBAL_FD_LIMITER.Release(scr.numOpenFDs)
+	// Close runs a second time when the caller closes a reader whose initialisation already
+	// failed (and closed it); the permits must be given back only once.
+	scr.numOpenFDs = 0
 }
 
 func (scr *SharedMultiColReaders) GetColumnsErrorsMap() map[string]error {
